@@ -8,7 +8,7 @@ stores is compared with what the single-term function returns for the same reque
 import ast
 
 from ..core.db import AnalysisError, norm_stmt, walk_no_nested
-from ..core.interp import Interp, Value, Const, Tup, Unknown, DictV
+from ..core.interp import Interp, Value, Const, Tup, Unknown, DictV, Frame
 from ..core.norm import Rat, _rat
 from ..domains.normdom import ArrNormDomain, NormDomain, Sym, install_pi
 from .common import loop_as_function, snapshot_loops, loop_carried, as_rat
@@ -293,11 +293,31 @@ def _run_step(it, dom, stepf, params, given):
     return res
 
 
+def _slot_counter(fi):
+    """the running output index of a sequence function: the one local that is advanced by `+= 1` and used as the
+    subscript of a store (whatever it is called)."""
+    aug = {n.target.id for n in ast.walk(fi.node) if isinstance(n, ast.AugAssign) and isinstance(n.target, ast.Name) and isinstance(n.op, ast.Add)
+           and isinstance(n.value, ast.Constant) and n.value.value == 1}
+    used = set()
+    for n in ast.walk(fi.node):
+        if isinstance(n, ast.Assign):
+            for t in n.targets:
+                if isinstance(t, ast.Subscript) and isinstance(t.slice, ast.Name):
+                    used.add(t.slice.id)
+    c = sorted(aug & used)
+    if len(c) != 1:
+        raise AnalysisError('%s: expected one running output index (advanced by += 1 and used as a store subscript), found %s' % (fi.qual, c))
+    return c[0]
+
+
 def qbfs_seq_rules(run, db, rule='C08.qseq'):
+    from .common import sweep_step, sweep_steps
     Q = P + 'qpoly.'
     fs, f1 = db.func(Q + 'Qbfs_seq'), db.func(Q + 'Qbfs')
     it, dom = mk(db, atoms=('g_qbfs', 'h_qbfs', 'f_qbfs'))
     R = dom.R
+    ctr = _slot_counter(fs)
+    rho = Rat(R.atom('x')) * Rat(R.atom('x'))
     # the single-order function: base values, loop-entry state, result expression
     snaps = snapshot_loops(it, dom)
     ref = {}
@@ -310,24 +330,26 @@ def qbfs_seq_rules(run, db, rule='C08.qseq'):
         raise AnalysisError('Qbfs: expected the cases n = 0, n = 1 and the sweep')
     ret_loop, sn1 = ref[None]
     sn1 = sn1[0]
-    carried = ('Pnm2', 'Pnm1', 'Qnm2', 'Qnm1')
+    # the roles of the carried names of Qbfs are read off the published starting values
+    s19 = Rat(R.sqrt(Rat(R.const(19))))
+    wants = {'P2': Rat(R.const(2)), 'P1': 6 - 8 * rho, 'Q2': Rat(R.const(1)), 'Q1': (13 - 16 * rho) / s19}
     # the sequence function
     del snaps[:]
     dom.stores = []
     paths = [p for p in it.run(fs, kwargs=lambda: {'ns': dom.sym('ns'), 'x': dom.sym('x')}) if p.outcome == 'return']
     stores = _uniq_stores(dom)
     seqsnaps = list(snaps)
-    dom.loop = lambda node, frame: False
     if not seqsnaps:
         raise AnalysisError('Qbfs_seq: no path reaches the sweep')
     nchecked = 0
+    guard = 'ns[%s]==' % ctr
     for idx, val, node, conds in stores:
         g = conds[-1] if conds else ('', None)
         txt = g[0].replace(' ', '')
-        if not (g[1] is True and txt.startswith('ns[min_i]==') and txt.split('==')[1] in ('0', '1')):
+        if not (g[1] is True and txt.startswith(guard) and txt.split('==')[1] in ('0', '1')):
             continue
         e = int(txt.split('==')[1])
-        earlier = sum(1 for c, t in conds[:-1] if t and c.replace(' ', '').startswith('ns[min_i]=='))
+        earlier = sum(1 for c, t in conds[:-1] if t and c.replace(' ', '').startswith(guard))
         got, ri = as_rat(dom, val, 'stored mode'), dom.rat(idx)
         run.check(got == ref[e][0], rule, fs.qual, 'order %d value' % e, 'under ns[k] == %d the stored mode is what Qbfs(%d, x) returns' % (e, e),
                   'Qbfs_seq stores %s under the guard ns[k] == %d; Qbfs(%d) returns %s' % (got.key(), e, e, ref[e][0].key()), fs.loc(node))
@@ -336,52 +358,53 @@ def qbfs_seq_rules(run, db, rule='C08.qseq'):
         nchecked += 1
     if nchecked < 3:
         raise AnalysisError('Qbfs_seq: fewer than three pre-sweep stores analysed (%d)' % nchecked)
-    for sn in seqsnaps:
-        same = all(dom.rat(sn.env.get(k)) is not None and dom.rat(sn.env.get(k)) == dom.rat(sn1.env.get(k)) for k in carried + ('c',))
-        run.check(same, rule, fs.qual, 'initial values (entered with %s stored)' % sn.env.get('min_i'), 'the sweep starts from the same (P_0, P_1, Q_0, Q_1, c) as Qbfs',
-                  'Qbfs_seq enters its sweep with %s, Qbfs with %s' % ([repr(sn.env.get(k)) for k in carried], [repr(sn1.env.get(k)) for k in carried]), fs.loc(sn.node))
+    # one step of the single-order sweep: the reference for the sequence sweep
+    sw1 = sweep_step(it, dom, f1, sn1, wants)
+    if any(v is None for v in sw1.roles.values()):
+        raise AnalysisError('Qbfs: the sweep does not start from the published (P_0, P_1, Q_0, Q_1): %s' % sw1.entry)
+    want = {k: dom.rat(sw1.out(k)) for k in wants}
+    wantQ = want['Q1']
+    posts = {a[5:] for a in ret_loop.atoms() if isinstance(a, str) and a.startswith('post_')}
+    ret_shape = len(posts) == 1 and posts <= set(sw1.fresh_equal(dom, wantQ)) and ret_loop == Rat(R.atom('post_' + sorted(posts)[0])) * rho * (1 - rho)
     lp = seqsnaps[0].node
-    okr = isinstance(lp.iter, ast.Call) and [ast.unparse(a).replace(' ', '') for a in lp.iter.args] == ['2', 'ns[-1]+1']
+    fr0 = Frame(fs, fs.module, dict(seqsnaps[0].env))
+    it_args = lp.iter.args if isinstance(lp.iter, ast.Call) and ast.unparse(lp.iter.func) == 'range' else []
+    rng = [it.ev(a, fr0) for a in it_args]
+    last = it.ev(ast.parse('ns[-1] + 1', mode='eval').body, fr0)
+    same_v = lambda a, b: (dom.rat(a) == dom.rat(b)) if dom.rat(a) is not None and dom.rat(b) is not None else repr(a) == repr(b)
+    okr = len(rng) == 2 and dom.rat(rng[0]) is not None and dom.rat(rng[0]) == Rat(R.const(2)) and same_v(rng[1], last)
     run.check(okr, rule, fs.qual, 'sweep range', 'the sweep runs from 2 to the last requested order inclusive', 'Qbfs_seq sweeps %s' % ast.unparse(lp.iter), fs.loc(lp))
-    # one step of each
-    step1, par1 = loop_as_function(f1, sn1.node, list(carried) + ['Qn'])
-    stepS, parS = loop_as_function(fs, lp, list(carried) + ['min_i'])
-    given = {k: dom.sym('in_' + k) for k in carried}
-    given.update({'Qn': Const(None), 'nn': dom.sym('nn'), 'min_i': dom.sym('min_i'), 'out': dom.sym('out'), 'ns': dom.sym('ns'), 'c': dom.sym('c'), 'c_Q': dom.sym('c_Q')})
-    r1 = _run_step(it, dom, step1, par1, given)
-    if len(r1) != 1:
-        raise AnalysisError('Qbfs: step has %d paths' % len(r1))
-    want = [dom.rat(v) for v in r1[0].value.items]
-    rS = _run_step(it, dom, stepS, parS, given)
-    st = _uniq_stores(dom)
-    if len(rS) != 2:
-        raise AnalysisError('Qbfs_seq: step has %d paths, expected emit / no emit' % len(rS))
-    mi = Rat(R.atom('min_i'))
-    for q in rS:
-        emit = any(t for c, t in q.conds if c.replace(' ', '') == 'ns[min_i]==nn')
-        got = [dom.rat(v) for v in q.value.items]
-        okc = all(a is not None and b is not None and a == b for a, b in zip(got[:4], want[:4]))
-        run.check(okc, rule, fs.qual, 'step (%s)' % ('emit' if emit else 'no emit'), 'one pass of the sweep updates (P, Q) exactly as one pass of Qbfs does',
-                  'Qbfs_seq step gives %s, Qbfs step gives %s' % ([g.key() if g is not None else '?' for g in got[:4]], [w.key() for w in want[:4]]), fs.loc(lp))
-        mine = [s_ for s_ in st if s_[3] == q.conds[:len(s_[3])] and len(s_[3]) <= len(q.conds) and (emit and any(t for c, t in s_[3]))]
-        if emit:
-            okv = len(mine) == 1 and dom.rat(mine[0][0]) == mi and dom.rat(mine[0][1]) is not None \
-                and dom.rat(mine[0][1]) == ret_loop.subs({'post_Qn': want[4], 'x': Rat(R.atom('x'))}).subs({}) if False else None
-            # value: what Qbfs returns after the sweep, with its last Q being this pass's Q_n
-            c_Q = Rat(R.atom('c_Q'))
-            rho = Rat(R.atom('x')) * Rat(R.atom('x'))
-            want_val = want[4] * c_Q
-            ret_shape = ret_loop == Rat(R.atom('post_Qn')) * rho * (1 - rho)
-            okv = len(mine) == 1 and dom.rat(mine[0][0]) == mi and dom.rat(mine[0][1]) == want_val and ret_shape
-            run.check(okv, rule, fs.qual, 'emission', 'when ns[k] == n the pass stores Q_n c_Q (what Qbfs returns for that order) in slot k',
-                      'Qbfs_seq emits %s into slot %s; Qbfs returns Q_n * c_Q' % (dom.rat(mine[0][1]).key() if mine else 'nothing', dom.rat(mine[0][0]).key() if mine else '?'), fs.loc(lp))
-            run.check(got[4] is not None and got[4] == mi + 1, rule, fs.qual, 'counter (emit)', 'the running index advances once per stored mode', 'after an emission the running index is %s' % (got[4].key() if got[4] is not None else '?'), fs.loc(lp))
-        else:
-            run.check(not [s_ for s_ in st if not any(t for c, t in s_[3] if c.replace(' ', '') == 'ns[min_i]==nn')] and got[4] is not None and got[4] == mi, rule, fs.qual, 'counter (no emit)',
-                      'a pass whose order was not requested stores nothing and keeps the running index', 'a non-requested order changes the output or the running index', fs.loc(lp))
-    cq = dom.rat(seqsnaps[0].env.get('c_Q'))
-    rho = Rat(R.atom('x')) * Rat(R.atom('x'))
-    run.check(cq is not None and cq == rho * (1 - rho), rule, fs.qual, 'c_Q', 'c_Q = rho^2 (1 - rho^2)', 'Qbfs_seq uses c_Q = %s' % (cq.key() if cq is not None else '?'), fs.loc())
+    mi = Rat(R.atom('kslot'))
+    for sn in seqsnaps:
+        dom.stores = []
+        sws = sweep_steps(it, dom, fs, sn, wants, given={ctr: dom.sym('kslot')})
+        st = _uniq_stores(dom)
+        same = all(v is not None for v in sws[0].roles.values()) and set(sws[0].carried) - {ctr} == set(sws[0].roles.values())
+        run.check(same, rule, fs.qual, 'initial values (entered with %s stored)' % sn.env.get(ctr), 'the sweep starts from the same (P_0, P_1, Q_0, Q_1) as Qbfs',
+                  'Qbfs_seq enters its sweep with %s' % ', '.join('%s=%s' % (k, v.key() if v is not None else '?') for k, v in sorted(sws[0].entry.items())), fs.loc(sn.node))
+        if not same:
+            continue
+        if len(sws) != 2:
+            raise AnalysisError('Qbfs_seq: step has %d paths, expected emit / no emit' % len(sws))
+        emit_txt = ('ns[%s]==%s' % (ctr, sws[0].var)).replace(' ', '')
+        for sw in sws:
+            emit = any(t for c, t in sw.conds if c.replace(' ', '') == emit_txt)
+            got = {k: (dom.rat(sw.out(k)) if sw.out(k) is not None else None) for k in wants}
+            okc = all(got[k] is not None and got[k] == want[k] for k in wants)
+            run.check(okc, rule, fs.qual, 'step (%s)' % ('emit' if emit else 'no emit'), 'one pass of the sweep updates (P, Q) exactly as one pass of Qbfs does',
+                      'Qbfs_seq step gives %s, Qbfs step gives %s' % ({k: (g.key() if g is not None else '?') for k, g in got.items()}, {k: w.key() for k, w in want.items()}), fs.loc(lp))
+            cnt = dom.rat(sw.after.get(ctr)) if sw.after.get(ctr) is not None else None
+            mine = [s_ for s_ in st if s_[3] == sw.conds[:len(s_[3])] and len(s_[3]) <= len(sw.conds) and (emit and any(t for c, t in s_[3]))]
+            if emit:
+                # value: what Qbfs returns after the sweep, with its last Q being this pass's Q_n
+                want_val = wantQ * rho * (1 - rho)
+                okv = len(mine) == 1 and dom.rat(mine[0][0]) == mi and dom.rat(mine[0][1]) == want_val and ret_shape
+                run.check(okv, rule, fs.qual, 'emission', 'when ns[k] == n the pass stores Q_n rho^2(1-rho^2) (what Qbfs returns for that order) in slot k',
+                          'Qbfs_seq emits %s into slot %s; Qbfs returns Q_n rho^2 (1 - rho^2)' % (dom.rat(mine[0][1]).key() if mine else 'nothing', dom.rat(mine[0][0]).key() if mine else '?'), fs.loc(lp))
+                run.check(cnt is not None and cnt == mi + 1, rule, fs.qual, 'counter (emit)', 'the running index advances once per stored mode', 'after an emission the running index is %s' % (cnt.key() if cnt is not None else '?'), fs.loc(lp))
+            else:
+                run.check(not [s_ for s_ in st if not any(t for c, t in s_[3] if c.replace(' ', '') == emit_txt)] and cnt is not None and cnt == mi, rule, fs.qual, 'counter (no emit)',
+                          'a pass whose order was not requested stores nothing and keeps the running index', 'a non-requested order changes the output or the running index', fs.loc(lp))
 
 
 def qcon_seq_rules(run, db, rule='C08.qseq'):
@@ -403,14 +426,60 @@ def qcon_seq_rules(run, db, rule='C08.qseq'):
     run.check(ra == rb, rule, fs.qual, 'per-order value', 'Qcon_seq applies per order exactly what Qcon applies to one order (x^4 P^(0,4)(2x^2-1))', 'Qcon_seq computes %s per order, Qcon %s' % (rb.key(), ra.key()), fs.loc())
 
 
-def q2d_seq_rules(run, db, rule='C08.qseq'):
-    Q = P + 'qpoly.'
-    fs, f1 = db.func(Q + 'Q2d_seq'), db.func(Q + 'Q2d')
-    ATOMS = ('g_q2d', 'f_q2d', 'Qbfs', 'sign')
+def _store_bases(loop, key):
+    """names D of the stores `D[key] = ...` in the body of `loop` (key: a local name)."""
+    out = []
+    for n in ast.walk(loop):
+        if isinstance(n, ast.Assign):
+            for t in n.targets:
+                if isinstance(t, ast.Subscript) and isinstance(t.value, ast.Name) and isinstance(t.slice, ast.Name) and t.slice.id == key and t.value.id not in out:
+                    out.append(t.value.id)
+    return out
+
+
+def _q2d_seq_names(fs):
+    """The locals of Q2d_seq by the role they play, read off the loop headers and the stores (not their spelling)."""
     tops = [n for n in fs.node.body if isinstance(n, ast.For)]
     if len(tops) != 4:
         raise AnalysisError('Q2d_seq: expected four top-level loops (maxima, scales, tables, requests), found %d' % len(tops))
     Lmax, Lsc, Ltab, Lmain = tops
+    N = {}
+    tt = Ltab.target
+    if not (isinstance(tt, ast.Tuple) and len(tt.elts) == 2 and all(isinstance(e, ast.Name) for e in tt.elts)
+            and isinstance(Ltab.iter, ast.Call) and isinstance(Ltab.iter.func, ast.Attribute) and Ltab.iter.func.attr == 'items' and isinstance(Ltab.iter.func.value, ast.Name)):
+        raise AnalysisError('Q2d_seq: the table loop is not `for m, N in <maxima>.items()`')
+    N['m'], N['N'], N['max'] = tt.elts[0].id, tt.elts[1].id, Ltab.iter.func.value.id
+    sq = _store_bases(Ltab, N['m'])
+    if len(sq) != 1:
+        raise AnalysisError('Q2d_seq: expected one per-|m| table written in the table loop, found %s' % sq)
+    N['seqs'] = sq[0]
+    if not (isinstance(Lsc.target, ast.Name) and isinstance(Lsc.iter, ast.Call) and isinstance(Lsc.iter.func, ast.Attribute) and Lsc.iter.func.attr == 'keys'
+            and isinstance(Lsc.iter.func.value, ast.Name) and Lsc.iter.func.value.id == N['max']):
+        raise AnalysisError('Q2d_seq: the scale loop does not walk the keys of the per-|m| maxima')
+    N['absm'] = Lsc.target.id
+    N['scales'] = _store_bases(Lsc, N['absm'])
+    N['members'] = sorted({c.comparators[0].id for c in ast.walk(Lsc) if isinstance(c, ast.Compare) and len(c.ops) == 1 and isinstance(c.ops[0], ast.In)
+                           and isinstance(c.left, ast.Name) and c.left.id == N['absm'] and isinstance(c.comparators[0], ast.Name)})
+    mt = Lmain.target
+    if not (isinstance(mt, ast.Tuple) and len(mt.elts) == 2 and all(isinstance(e, ast.Name) for e in mt.elts) and isinstance(Lmain.iter, ast.Name) and Lmain.iter.id == fs.params[0]):
+        raise AnalysisError('Q2d_seq: the request loop is not `for n, m in nms`')
+    N['rn'], N['rm'] = mt.elts[0].id, mt.elts[1].id
+    N['j'] = _slot_counter(fs)
+    outs = _store_bases(Lmain, N['j'])
+    if len(outs) != 1:
+        raise AnalysisError('Q2d_seq: expected one output array written in the request loop, found %s' % outs)
+    N['out'] = outs[0]
+    return tops, N
+
+
+def q2d_seq_rules(run, db, rule='C08.qseq'):
+    from .common import sweep_step, post_atoms
+    Q = P + 'qpoly.'
+    fs, f1 = db.func(Q + 'Q2d_seq'), db.func(Q + 'Q2d')
+    ATOMS = ('g_q2d', 'f_q2d', 'Qbfs', 'sign')
+    (Lmax, Lsc, Ltab, Lmain), NM = _q2d_seq_names(fs)
+    mN, NN, SEQS = NM['m'], NM['N'], NM['seqs']
+    cnd = lambda txt: txt.replace(' ', '')
 
     def fresh(positive=('M', 'MM')):
         it, dom = mk(db, positive=positive, atoms=ATOMS)
@@ -425,6 +494,8 @@ def q2d_seq_rules(run, db, rule='C08.qseq'):
     it, dom = fresh()
     R = dom.R
     A = lambda nme: Rat(R.atom(nme))
+    Cc = lambda v: Rat(R.const(v))
+    fat = lambda name, *a: Rat(R.func(name, list(a)))
     # ---- the single-term function for m = M > 0: radial values, loop-entry state per (m == 1), step
     snaps = snapshot_loops(it, dom)
     base, loops1 = {}, {}
@@ -444,17 +515,39 @@ def q2d_seq_rules(run, db, rule='C08.qseq'):
             loops1[m1] = (sn[0], v)
     if set(loops1) != {True, False}:
         raise AnalysisError('Q2d: sweeps for |m| = 1 and |m| != 1 not both found')
+    # the carried names of both sweeps by role: what they hold when the sweep starts
+    xr = A('r') * A('r')
+    MA = A('M')
+
+    def wants(m1):
+        if m1:
+            return {'P2': (3 - xr * (12 - 8 * xr)) / 6, 'P1': (5 - xr * (60 - xr * (120 - 64 * xr))) / 10, 'Q1': base[(True, 3)]}, 4
+        return {'P2': Cc(1) / 2, 'P1': (MA - Cc(1) / 2) + (1 - MA) * xr, 'Q1': base[(False, 1)]}, 2
+    ref_step = {}
     for m1 in (True, False):
-        run.check(loops1[m1][1] == A('post_Qn') * pref, rule, f1.qual, 'result form (|m|%s1)' % ('=' if m1 else '!='), 'Q2d returns (last Q of the sweep) u^m cos(m t)', 'Q2d returns %s' % loops1[m1][1].key(), f1.loc())
+        sn1, v1 = loops1[m1]
+        w, first = wants(m1)
+        sw1 = sweep_step(it, dom, f1, sn1, w)
+        if any(v is None for v in sw1.roles.values()):
+            raise AnalysisError('Q2d: the |m|%s1 sweep does not start from its published state: %s' % ('=' if m1 else '!=', sw1.entry))
+        outs1 = {k: dom.rat(sw1.out(k)) for k in w}
+        posts = post_atoms(v1)
+        okp = len(posts) == 1 and posts <= set(sw1.fresh_equal(dom, outs1['Q1'])) and v1 == A('post_' + sorted(posts)[0]) * pref
+        run.check(okp, rule, f1.qual, 'result form (|m|%s1)' % ('=' if m1 else '!='), 'Q2d returns (last Q of the sweep) u^m cos(m t)', 'Q2d returns %s' % v1.key(), f1.loc())
+        fr1 = Frame(f1, f1.module, dict(sn1.env))
+        rng1 = [dom.rat(it.ev(a, fr1)) for a in sn1.node.iter.args] if isinstance(sn1.node.iter, ast.Call) else []
+        ref_step[m1] = (outs1, rng1, first)
     # ---- the table loop of the sequence function, one azimuthal order at a time
-    stepT, parT = loop_as_function(fs, Ltab, ['seqs'])
+    first_env = snapshot_dummy(it, dom, fs)
+    pre = {k: v for sn in first_env for k, v in sn.env.items() if k not in fs.params and isinstance(v, Value) and dom.rat(v) is not None}
+    stepT, parT = loop_as_function(fs, Ltab, [SEQS])
     # m = 0: the Qbfs table
     T0 = {}
 
     def kw0():
         T0['seqs'] = DictV()
-        d = {p_: dom.sym(p_) for p_ in parT}
-        d.update({'m': Const(0), 'N': dom.sym('N'), 'seqs': T0['seqs'], 'r': dom.sym('r')})
+        d = {p_: pre.get(p_, dom.sym(p_)) for p_ in parT}
+        d.update({mN: Const(0), NN: dom.sym('N'), SEQS: T0['seqs'], 'r': dom.sym('r')})
         return d
     dom.loop = lambda node, frame: False
     r0 = [q for q in it.run(stepT, kwargs=kw0) if q.outcome == 'return']
@@ -467,8 +560,8 @@ def q2d_seq_rules(run, db, rule='C08.qseq'):
 
     def kwM():
         TM['seqs'] = DictV()
-        d = {p_: dom.sym(p_) for p_ in parT}
-        d.update({'m': dom.sym('M'), 'N': dom.sym('N'), 'seqs': TM['seqs'], 'x': Sym(A('r') * A('r'))})
+        d = {p_: pre.get(p_, dom.sym(p_)) for p_ in parT}
+        d.update({mN: dom.sym('M'), NN: dom.sym('N'), SEQS: TM['seqs'], 'r': dom.sym('r')})
         return d
     lists = []
     for q in it.run(stepT, kwargs=kwM):
@@ -480,18 +573,13 @@ def q2d_seq_rules(run, db, rule='C08.qseq'):
     dom.loop = lambda node, frame: False
     if len(lists) < 5:
         raise AnalysisError('Q2d_seq table loop: expected at least five paths (N = 0, N = 1, |m| = 1 short, two sweeps), found %d' % len(lists))
-    first_env = snapshot_dummy(it, dom, fs)
-    xs = {repr(sn.env.get('x')) for sn in first_env}
-    us = {repr(sn.env.get('u')) for sn in first_env}
-    if us != {repr(dom.sym('r'))}:
-        raise AnalysisError('Q2d_seq: u is not r at the first loop: %s' % sorted(us))
-    run.check(xs == {repr(Sym(A('r') * A('r')))}, rule, fs.qual, 'x', 'x = u^2 with u = r', 'Q2d_seq uses x = %s' % sorted(xs), fs.loc())
     nsweeps = 0
+    m1txt = cnd('%s == 1' % mN)
     for q, items, sn in lists:
         if items is None:
             raise AnalysisError('Q2d_seq: the per-m table is not a list on path %s' % (q.conds,))
-        m1 = any(c.replace(' ', '') == 'm==1' and t for c, t in q.conds)
-        label = '|m|%s1, %s' % ('=' if m1 else '!=', ', '.join(c for c, t in q.conds if t and c.startswith('N')) or 'sweep')
+        m1 = any(cnd(c) == m1txt and t for c, t in q.conds)
+        label = '|m|%s1, %s' % ('=' if m1 else '!=', ', '.join(c.replace(NN, 'N') for c, t in q.conds if t and c.startswith(NN)) or 'sweep')
         vals = [dom.rat(v) for v in items]
         inner_lines = {n_.lineno for n_ in ast.walk(Ltab) if isinstance(n_, ast.For) and n_ is not Ltab}
         inloop = [s_ for s_ in sn if s_.node.lineno in inner_lines]
@@ -503,45 +591,45 @@ def q2d_seq_rules(run, db, rule='C08.qseq'):
         if inloop:
             nsweeps += 1
             s_ = inloop[-1]
-            s1 = loops1[m1][0]
-            same = all(dom.rat(s_.env.get(k)) is not None and dom.rat(s_.env.get(k)) == dom.rat(s1.env.get(k)) for k in ('Pnm2', 'Pnm1', 'Qnm1', 'min_n'))
-            run.check(same, rule, fs.qual, 'sweep start (%s)' % label, 'the table sweep starts from the state Q2d starts from', 'Q2d_seq table sweep starts with %s; Q2d with %s' %
-                      ([repr(s_.env.get(k)) for k in ('Pnm2', 'Pnm1', 'Qnm1', 'min_n')], [repr(s1.env.get(k)) for k in ('Pnm2', 'Pnm1', 'Qnm1', 'min_n')]), fs.loc(s_.node))
-            mn = dom.rat(s_.env.get('min_n'))
-            run.check(mn is not None and mn == Rat(R.const(nfix)), rule, fs.qual, 'list alignment (%s)' % label, 'the list holds orders 0..min_n-1 when the sweep starts, so appending order by order keeps index == order',
-                      'the per-m list has %d entries when the sweep starts at order %s' % (nfix, mn.key() if mn is not None else '?'), fs.loc(s_.node))
-            okr = isinstance(s_.node.iter, ast.Call) and [ast.unparse(a).replace(' ', '') for a in s_.node.iter.args] == ['min_n', 'N+1']
-            run.check(okr, rule, fs.qual, 'sweep range (%s)' % label, 'the table sweep covers orders min_n..N', 'table sweep range is %s' % ast.unparse(s_.node.iter), fs.loc(s_.node))
-            # step equality and the appended value
-            st1, p1 = loop_as_function(f1, s1.node, ['Pnm2', 'Pnm1', 'Qnm1', 'Qn'])
-            stS, pS = loop_as_function(fs, s_.node, ['Pnm2', 'Pnm1', 'Qnm1'])
+            w, first = wants(m1)
+            outs1, rng1, _ = ref_step[m1]
             lst = Tup([], 'list')
             dd = DictV()
             dd.set(dom.sym('M'), lst)
-            given = {k: dom.sym('in_' + k) for k in ('Pnm2', 'Pnm1', 'Qnm1')}
-            given.update({'Qn': Const(None), 'nn': dom.sym('nn'), 'm': dom.sym('M'), 'x': dom.sym('x'), 'seqs': dd})
-            ra = _run_step(it, dom, st1, p1, given)
-            rb = _run_step(it, dom, stS, pS, given)
-            if len(ra) != 1 or len(rb) != 1:
-                raise AnalysisError('Q2d / Q2d_seq sweep step: %d / %d paths' % (len(ra), len(rb)))
-            wa = [dom.rat(v) for v in ra[0].value.items]
-            gb = [dom.rat(v) for v in rb[0].value.items]
-            app = [dom.rat(v) for v in lst.items]
-            oks = all(a is not None and b is not None and a == b for a, b in zip(gb, wa[:3])) and len(app) == 1 and app[0] is not None and app[0] == wa[3]
-            run.check(oks, rule, fs.qual, 'sweep step (%s)' % label, 'one pass updates (P_(n-1), P_n, Q_n) as Q2d does and appends exactly Q_n',
-                      'Q2d_seq pass gives %s and appends %s; Q2d pass gives %s' % ([g.key() if g is not None else '?' for g in gb], [a.key() if a is not None else '?' for a in app], [w.key() if w is not None else '?' for w in wa]), fs.loc(s_.node))
+            sw = sweep_step(it, dom, fs, s_, w, given={SEQS: dd, mN: dom.sym('M')})
+            same = all(v is not None for v in sw.roles.values()) and set(sw.carried) == set(sw.roles.values())
+            run.check(same, rule, fs.qual, 'sweep start (%s)' % label, 'the table sweep starts from the state Q2d starts from', 'Q2d_seq table sweep starts with %s; Q2d with %s' %
+                      (', '.join('%s=%s' % (k, v.key() if v is not None else '?') for k, v in sorted(sw.entry.items())), {k: v.key() for k, v in w.items()}), fs.loc(s_.node))
+            frs = Frame(fs, fs.module, dict(s_.env))
+            rng = [dom.rat(it.ev(a, frs)) for a in s_.node.iter.args] if isinstance(s_.node.iter, ast.Call) and ast.unparse(s_.node.iter.func) == 'range' else []
+            mn = rng[0] if len(rng) == 2 else None
+            run.check(mn is not None and mn == Cc(nfix) and mn == Cc(first), rule, fs.qual, 'list alignment (%s)' % label, 'the list holds orders 0..first-1 when the sweep starts, so appending order by order keeps index == order',
+                      'the per-m list has %d entries when the sweep starts at order %s' % (nfix, mn.key() if mn is not None else '?'), fs.loc(s_.node))
+            okr = len(rng) == 2 and rng[1] is not None and rng[1] == A('N') + 1 and len(rng1) == 2 and rng1[0] is not None and rng1[0] == Cc(first)
+            run.check(okr, rule, fs.qual, 'sweep range (%s)' % label, 'the table sweep covers the orders from where Q2d starts its sweep up to N', 'table sweep range is %s' % ast.unparse(s_.node.iter), fs.loc(s_.node))
+            if same:
+                gb = {k: (dom.rat(sw.out(k)) if sw.out(k) is not None else None) for k in w}
+                app = [dom.rat(v) for v in lst.items]
+                oks = all(gb[k] is not None and gb[k] == outs1[k] for k in w) and len(app) == 1 and app[0] is not None and app[0] == outs1['Q1']
+                run.check(oks, rule, fs.qual, 'sweep step (%s)' % label, 'one pass updates (P_(n-1), P_n, Q_n) as Q2d does and appends exactly Q_n',
+                          'Q2d_seq pass gives %s and appends %s; Q2d pass gives %s' % ({k: (g.key() if g is not None else '?') for k, g in gb.items()}, [a.key() if a is not None else '?' for a in app], {k: v.key() for k, v in outs1.items()}), fs.loc(s_.node))
     if nsweeps < 2:
         raise AnalysisError('Q2d_seq: the two table sweeps (|m| = 1, |m| != 1) were not both analysed')
     # ---- scale tables
     it2, dom2 = fresh()
-    _, lawS = table_law(db, fs, Lsc, lambda: (it2, dom2), 'kk', {'u': lambda d: d.sym('r'), 'absm': lambda d: d.sym('kk'), 'm_has_neg': lambda d: Tup([d.sym('kk')]), 'm_has_pos': lambda d: Tup([d.sym('kk')])},
-                        ['u_scales', 'sin_scales', 'cos_scales'])
+    first2 = snapshot_dummy(it2, dom2, fs)
+    pre2 = {k: (lambda d, v=v: v) for sn in first2 for k, v in sn.env.items() if k not in fs.params and isinstance(v, Value) and dom2.rat(v) is not None}
+    presets = dict(pre2)
+    presets[NM['absm']] = lambda d: d.sym('kk')
+    for nm_ in NM['members']:
+        presets[nm_] = lambda d: Tup([d.sym('kk')])
+    _, lawS = table_law(db, fs, Lsc, lambda: (it2, dom2), 'kk', presets, NM['scales'])
     # ---- the request loop
     for label, mk_m in (('m = 0', lambda d: Const(0)), ('m > 0', lambda d: d.sym('M')), ('m < 0', lambda d: Sym(-d.sym('MM').r))):
         R2 = dom2.R
         B = lambda nme: Rat(R2.atom(nme))
         mval = mk_m(dom2)
-        stepR, parR = loop_as_function(fs, Lmain, ['j'])
+        stepR, parR = loop_as_function(fs, Lmain, [NM['j']])
 
         def tab(entry, keyname='kk'):
             return Law(lambda key, entry=entry: subst_value(dom2, entry, keyname, key), keyname)
@@ -550,8 +638,9 @@ def q2d_seq_rules(run, db, rule='C08.qseq'):
             if isinstance(key, Const) and key.v == 0:
                 return Law(lambda j: dom2.func_atom('Qbfs', [j, dom2.sym('r')]), 'Qbfs table')
             return Law(lambda j, key=key: dom2.func_atom('Qrad', [key, j]), 'radial table')
-        given = {'n': dom2.sym('n'), 'm': mval, 'j': dom2.sym('j'), 'out': dom2.sym('out'), 'seqs': Law(seqs_law, 'seqs'),
-                 'u_scales': tab(lawS['u_scales']), 'sin_scales': tab(lawS['sin_scales']), 'cos_scales': tab(lawS['cos_scales'])}
+        given = {NM['rn']: dom2.sym('n'), NM['rm']: mval, NM['j']: dom2.sym('j'), NM['out']: dom2.sym('out'), SEQS: Law(seqs_law, 'seqs')}
+        for nm_ in NM['scales']:
+            given[nm_] = tab(lawS[nm_])
         rs = _run_step(it2, dom2, stepR, parR, given)
         st = _uniq_stores(dom2)
         if len(rs) != 1 or len(st) != 1:
@@ -575,12 +664,22 @@ def q2d_seq_rules(run, db, rule='C08.qseq'):
     R3 = dom3.R
     C3 = lambda nme: Rat(R3.atom(nme))
     prefn = Rat(R3.func('pow', [C3('r'), C3('MM')])) * Rat(R3.trig('sin', C3('MM') * C3('t')))
-    okn = bool(negs) and all(dom3.rat(p.value) is not None and dom3.rat(p.value) == C3('post_Qn') * prefn for p in negs if any(c.replace(' ', '') == 'sign(m)==-1' and t for c, t in p.conds))
+
+    def neg_ok(p):
+        v = dom3.rat(p.value)
+        if v is None:
+            return False
+        ps = post_atoms(v)
+        return len(ps) == 1 and v == C3('post_' + sorted(ps)[0]) * prefn
+    okn = bool(negs) and all(neg_ok(p) for p in negs if any(c.replace(' ', '') == 'sign(m)==-1' and t for c, t in p.conds))
     run.check(okn, rule, f1.qual, 'result form (m < 0)', 'Q2d(n, m < 0) returns (last Q of the |m| sweep) u^|m| sin(|m| t)', 'Q2d for negative m does not return Q u^|m| sin(|m| t)', f1.loc())
     # maxima loop: N per |m| is the maximum n requested
-    src = [norm_stmt(st_).replace(' ', '') for st_ in Lmax.body]
-    okm = 'm_=abs(m)' in src and any(isinstance(st_, ast.If) and ast.unparse(st_.test).replace(' ', '') == 'max_ns[m_]<n' and [norm_stmt(x).replace(' ', '') for x in st_.body] == ['max_ns[m_]=n'] for st_ in Lmax.body)
-    run.check(okm and ast.unparse(Ltab.iter).replace(' ', '') == 'max_ns.items()' and ast.unparse(Lsc.iter).replace(' ', '') == 'max_ns.keys()', rule, fs.qual, 'per-|m| maximum',
+    from ..core.pattern import match_all
+    mx = match_all(Lmax.body, ['V_a = abs(V_m)', 'if V_T[V_a] < V_n:\n    V_T[V_a] = V_n'])
+    tgt = [e.id for e in Lmax.target.elts] if isinstance(Lmax.target, ast.Tuple) and all(isinstance(e, ast.Name) for e in Lmax.target.elts) else []
+    okm = bool(mx) and len(tgt) == 2 and mx['V_n'] == tgt[0] and mx['V_m'] == tgt[1] and mx['V_T'] == NM['max'] \
+        and isinstance(Lmax.iter, ast.Name) and Lmax.iter.id == fs.params[0]
+    run.check(okm, rule, fs.qual, 'per-|m| maximum',
               'tables are built for every |m| requested, up to the largest n requested with that |m|', 'the per-|m| maximum order / key set changed', fs.loc(Lmax))
 
 
